@@ -28,7 +28,7 @@ impl Property for C14 {
         }
     }
     fn rule(&self) -> &'static str {
-        "one case = an arrangement of 2-4 project directories (names drawn from a small pool so that clashes are frequent, missing or syntactically invalid names, imports forming trees, diamonds, cycles and self-imports, import keys that do or do not match the imported project's name, unknown keys) + one request, executed under 8 different seeded hash orders (std RandomState keys come from the interposed getrandom) with the FIFO schedule. A few arrangements carry one document the documented schema excludes (empty target body, two kinds at once, unknown keys, invalid target name), which must be rejected; every 12th case builds a valid two-project tree (recorded state exists), then breaks a reference so that only resolution can notice and runs `--clean` / `--clean top` / `top`: the refusal must leave the tree byte-identical; every 400th case is one valid project with a dependency chain of 12 000 or 4 000 targets (`--clean`, which resolves every target). Oracle: no run panics or aborts; the verdict (accepted / rejected before anything runs) and the multiset of scripts started are identical for all 8 hash orders. distinct_nontrivial = distinct (arrangement hash) among cases that load at least two projects"
+        "one case = an arrangement of 2-4 project directories (names drawn from a small pool so that clashes are frequent, missing or syntactically invalid names, imports forming trees, diamonds, cycles and self-imports, import keys that do or do not match the imported project's name, unknown keys) + one request, executed under 8 different seeded hash orders (std RandomState keys come from the interposed getrandom) with the FIFO schedule. A few arrangements carry one document the documented schema excludes (empty target body, two kinds at once, unknown keys, target or project names outside `\\w[-\\w]*` including ones that only start validly), which must be rejected; every 12th case builds a valid two-project tree (recorded state exists), then breaks a reference so that only resolution can notice and runs `--clean` / `--clean top` / `top`: the refusal must leave the tree byte-identical; every 400th case is one valid project with a dependency chain of 12 000 or 4 000 targets (`--clean`, which resolves every target). Oracle: no run panics or aborts; the verdict (accepted / rejected before anything runs) and the multiset of scripts started are identical for all 8 hash orders. distinct_nontrivial = distinct (arrangement hash) among cases that load at least two projects"
     }
     fn assumptions(&self) -> Vec<&'static str> {
         vec!["only the schedule-free determinism and no-abort half of C14 is decided here; totality over arbitrary byte strings and strictness of the schema are input-space claims left to fuzzing (DESIGN.md §7 C14)"]
@@ -100,7 +100,8 @@ impl Property for C14 {
                     0 => Some(rng.pick(&pool).to_string()),
                     1 => None,
                     2 => Some("-bad".to_string()),
-                    _ => Some("with space".to_string()),
+                    // a valid first character does not make a valid name
+                    _ => Some(rng.pick(&["with space", "app::core", "lib/v2", "a.b", "tail!"]).to_string()),
                 }
             };
             names.push(n);
@@ -157,7 +158,7 @@ impl Property for C14 {
                     2 => ("unknown-target-key", "  bad:\n    build: \"@sim id=x.bad\"\n    colour: red\n".to_string()),
                     3 => ("dependencies-not-a-list", "  bad:\n    dependencies: t\n".to_string()),
                     4 => ("aggregate-with-output", "  bad:\n    dependencies: [t]\n    output: [{paths: [x]}]\n".to_string()),
-                    5 => ("invalid-target-name", "  \"-bad\":\n    build: \"@sim id=x.bad\"\n".to_string()),
+                    5 => ("invalid-target-name", format!("  \"{}\":\n    build: \"@sim id=x.bad\"\n", rng.pick(&["-bad", "gen docs", "pack.output", "lib/v2", "app::core", "tail!"]))),
                     _ => ("unknown-resource-key", "  bad:\n    build: \"@sim id=x.bad\"\n    input: [{paths: [x], colour: red}]\n".to_string()),
                 };
                 y.push_str(&text);
@@ -179,7 +180,7 @@ impl Property for C14 {
         let request = match rng.weighted(&[60, 40]) {
             0 => "top".to_string(),
             _ => {
-                let named: Vec<&String> = names.iter().skip(1).flatten().filter(|n| !n.contains(' ') && !n.starts_with('-')).collect();
+                let named: Vec<&String> = names.iter().skip(1).flatten().filter(|n| !n.starts_with('-') && n.chars().all(|c| c.is_alphanumeric() || c == '_' || c == '-')).collect();
                 if named.is_empty() {
                     "top".to_string()
                 } else {
@@ -190,6 +191,11 @@ impl Property for C14 {
         // an invalid document only counts if its project is certainly loaded: p0 always is, pa
         // when the root imports it first-hand
         let invalid = invalid.filter(|w| w.ends_with("@p0") || imports[0].iter().any(|x| x.1 == 1));
+        // so does a project name outside `\w[-\w]*` on a project that is certainly loaded
+        let name_ok = |n: &str| !n.is_empty() && !n.starts_with('-') && n.chars().all(|c| c.is_alphanumeric() || c == '_' || c == '-');
+        let invalid = invalid.or_else(|| {
+            (0..k.min(2)).find(|&i| (i == 0 || imports[0].iter().any(|x| x.1 == 1)) && names[i].as_deref().map(|n| !name_ok(n)).unwrap_or(false)).map(|i| format!("invalid-project-name@{}", dirs[i]))
+        });
         let label = match &invalid {
             Some(w) => format!("config-{}proj-invalid:{}", k, w),
             None => format!("config-{}proj", k),
